@@ -25,7 +25,12 @@ def _java(extra_props=(), heap="3g"):
 
 
 def sany(path: str) -> None:
-    r = subprocess.run(_java(heap="512m") + ["tla2sany.SANY", path], capture_output=True, text=True)
+    tmp = tempfile.mkdtemp(prefix="sany-")
+    try:
+        r = subprocess.run(_java(extra_props=(f"-Djava.io.tmpdir={tmp}",), heap="512m") + ["tla2sany.SANY", path],
+                           capture_output=True, text=True)
+    finally:
+        shutil.rmtree(tmp, ignore_errors=True)
     if r.returncode != 0 or "*** Errors" in r.stdout or "Fatal errors" in r.stdout:
         raise MachineryError(f"SANY failed on {path}:\n{r.stdout[-3000:]}\n{r.stderr[-2000:]}")
 
@@ -37,8 +42,10 @@ def run_tlc(spec: str, cfg: str, *, workers=1, env=None, extra=(), timeout=3600,
     e.pop("JAVA_TOOL_OPTIONS", None)
     if env:
         e.update(env)
-    cmd = _java(heap=heap) + [
-        "tlc2.TLC", "-workers", str(workers), "-metadir", meta, "-noGenerateSpecTE",
+    # (TLC unpacks its standard modules into java.io.tmpdir on every start and leaves them there: point it at the
+    #  scratch directory that is removed below)
+    cmd = _java(extra_props=(f"-Djava.io.tmpdir={meta}",), heap=heap) + [
+        "tlc2.TLC", "-workers", str(workers), "-metadir", os.path.join(meta, "states"), "-noGenerateSpecTE",
         "-config", cfg, *extra, spec,
     ]
     t0 = time.time()
@@ -56,8 +63,9 @@ def run_tlc_to_file(spec: str, cfg: str, path: str, *, workers=1, extra=(), time
     meta = tempfile.mkdtemp(prefix="tlcmeta-")
     e = dict(os.environ)
     e.pop("JAVA_TOOL_OPTIONS", None)
-    cmd = _java(heap=heap) + ["tlc2.TLC", "-workers", str(workers), "-metadir", meta, "-noGenerateSpecTE",
-                              "-config", cfg, *extra, spec]
+    cmd = _java(extra_props=(f"-Djava.io.tmpdir={meta}",), heap=heap) + [
+        "tlc2.TLC", "-workers", str(workers), "-metadir", os.path.join(meta, "states"), "-noGenerateSpecTE",
+        "-config", cfg, *extra, spec]
     t0 = time.time()
     try:
         with open(path, "w") as f:
